@@ -310,14 +310,15 @@ def render_query(q, lang, rnd=None, header_a=None, header_b=None, join_table='b'
     if shuffle_clauses and rnd is not None:
         rnd.shuffle(clauses)
     text = head
-    seps = [' ', '\n', '\n    ', ' \n# where a1 == 5 select *\n ', '\t', '  \n\n  ', '\n#;\n']
+    cm = '#' if lang == 'py' else '//'      # comment lines: `#` in the Python port, `//` in rbql-js
+    seps = [' ', '\n', '\n    ', ' \n%s where a1 == 5 select *\n ' % cm, '\t', '  \n\n  ', '\n%s;\n' % cm]
     for c in clauses:
         text += (rnd.choice(seps) if (layout and rnd is not None) else sp.sp()) + c
     if layout and rnd is not None:
         if not q.get('update') and rnd.random() < 0.25 and q.get('except') is None:
             # a redundant FROM a right after the select list is only valid before the other clauses: put it first
             pass
-        text = rnd.choice(['', ' ', '\n', '# leading comment\n']) + text + rnd.choice(['', ';', ' ;', ';;', '\n', ' \n;'])
+        text = rnd.choice(['', ' ', '\n', '%s leading comment\n' % cm]) + text + rnd.choice(['', ';', ' ;', ';;', '\n', ' \n;'])
     return text
 
 # ----------------------------------------------------------------------------------------- generators
